@@ -135,9 +135,9 @@ spec("C04", "argparse round trip",
      not_decided="required/default/Optional interplay, choices quoting, numeric vs string defaults (value-level)")
 
 spec("C06", "Emitted code is valid Python",
-     [H.rule_default_kind, L.rule_quote_pair, L.rule_quote_types, A.rule_align_emit, O.rule_order, CT.rule_ctor, scoped(FA.rule_falsy, "falsy_emit", "emit.class_", "emit.function", "emit.argparse_function"),
+     [H.rule_default_kind, L.rule_quote_pair, L.rule_quote_types, TB.rule_table_argparse, A.rule_align_emit, O.rule_order, CT.rule_ctor, scoped(FA.rule_falsy, "falsy_emit", "emit.class_", "emit.function", "emit.argparse_function"),
       det3("emit", "emit.class_", "emit.function", "emit.argparse_function", "emit.file"), pit("emit", "emit.class_", "emit.function", "emit.argparse_function", "emit.file"), F.rule_file5],
-     "Necessary conditions, for all inputs: (DEFAULT-KIND) an operation only a str has (a str method, len(), indexing) is applied to a read of the IR key 'default' only under evidence that this default is a str (isinstance, a package predicate that tests it, equality with a str constant): defaults are also ints, floats, booleans and None; (QUOTE-PAIR) what the writer does to a string default when it quotes it the reader's unquote undoes, quoting its own result changes nothing, and unquote leaves a text that is not a quoted pair alone - followed on representatives of the kinds of string a default can be (a word, inner double quote, apostrophe, inner blank, padded, blank, line break, digits); (QUOTE-TYPES) the quoting helper, applied to every default whose declared type mentions str (Union[int, str] = 3), raises for no kind of default value (str, int, float, bool, None): its type dispatch is run abstractly per kind; (ALIGN-emit) every ast.arguments(...) the package builds satisfies Python's length invariants and aligns defaults with "
+     "Necessary conditions, for all inputs: (TABLE-argparse) what the argparse emitter builds is what a real ArgumentParser accepts and the recogniser reads back - in particular a '%' in help text is written doubled, because argparse %-formats every help string (else printing the help raises), and halved again by the parser; (DEFAULT-KIND) an operation only a str has (a str method, len(), indexing) is applied to a read of the IR key 'default' only under evidence that this default is a str (isinstance, a package predicate that tests it, equality with a str constant): defaults are also ints, floats, booleans and None; (QUOTE-PAIR) what the writer does to a string default when it quotes it the reader's unquote undoes, quoting its own result changes nothing, and unquote leaves a text that is not a quoted pair alone - followed on representatives of the kinds of string a default can be (a word, inner double quote, apostrophe, inner blank, padded, blank, line break, digits); (QUOTE-TYPES) the quoting helper, applied to every default whose declared type mentions str (Union[int, str] = 3), raises for no kind of default value (str, int, float, bool, None): its type dispatch is run abstractly per kind; (ALIGN-emit) every ast.arguments(...) the package builds satisfies Python's length invariants and aligns defaults with "
      "arguments as symbolic identities; (ORDER) names/order/count of attributes, arguments and options are those of the IR by construction; (CTOR) every ast node "
      "construction supplies the mandatory _fields of the running interpreter. (DET-3, scoped) no function on this property's code path writes state that outlives the call (module globals/objects, function or class attributes, mutated mutable defaults, memoised mutable results): the conversion is not history-dependent. (LATE-BIND / STALE-CAPTURE / SHARED-DEFAULT / STR-MEMBER, scoped) on this property's code path no closure created per iteration reads its loop variable late, no partial / lambda default captures a name that is rebound before the call, no mutable default is mutated, returned or stored, and no membership test is made against an identifier-like string (a tuple that lost its comma). (FILE-5c) existing content is not read through a handle opened for appending.",
      floors={"ALIGN-emit": 2, "ORDER": 4, "CTOR": 1},
